@@ -117,6 +117,39 @@ def mk_time(secs, carrier="dt64ns"):
     raise ValueError(carrier)
 
 
+def mk_time_ns(ns_list, carrier="dt64ns"):
+    """Time carriers for instants given in integer nanoseconds (sub-second times)."""
+    ns = np.array([int(v) for v in ns_list], dtype="int64")
+    a = ns.astype("datetime64[ns]")
+    if carrier == "dt64ns":
+        return a
+    if carrier == "dt64ms":
+        assert all(int(v) % 1_000_000 == 0 for v in ns_list)
+        return a.astype("datetime64[ms]")
+    if carrier == "pydt":
+        assert all(int(v) % 1000 == 0 for v in ns_list)
+        return [dt.datetime(1970, 1, 1) + dt.timedelta(microseconds=int(v) // 1000) for v in ns_list]
+    if carrier == "stamps":
+        return [pd.Timestamp(int(v), unit="ns") for v in ns_list]
+    if carrier == "dtindex":
+        return pd.DatetimeIndex(a)
+    if carrier == "series_naive":
+        return pd.Series(a)
+    if carrier == "series_utc":
+        return pd.Series(pd.DatetimeIndex(a).tz_localize("UTC"))
+    if carrier == "dtindex_utc":
+        return pd.DatetimeIndex(a).tz_localize("UTC")
+    if carrier == "epoch_float":
+        return np.array([int(v) / 1e9 for v in ns_list], dtype=np.float64)
+    if carrier == "epoch_float_list":
+        return [int(v) / 1e9 for v in ns_list]
+    raise ValueError(carrier)
+
+
+SUBSECOND_TIME_CARRIERS = ["dt64ns", "dt64ms", "pydt", "stamps", "dtindex", "series_naive", "series_utc", "dtindex_utc",
+                           "epoch_float", "epoch_float_list"]
+
+
 def mk_span(arg, kind="list"):
     """A SeqArg {'seq': bool, 'vals': [...]} as list / tuple / ndarray."""
     vals = [float(v) for v in arg["vals"]]
@@ -171,7 +204,7 @@ def build_call(case, carrier="nd_f8", tcarrier="dt64ns", span_kind="list"):
     """Return (function, kwargs) for a logical test case."""
     fn = case["fn"]
     D = lambda k: mk_data(case[k], carrier)  # noqa: E731
-    T = lambda: mk_time(case["t"], tcarrier)  # noqa: E731
+    T = lambda: (mk_time_ns(case["t_ns"], tcarrier) if "t_ns" in case else mk_time(case["t"], tcarrier))  # noqa: E731
     fo = lambda k: None if case.get(k) is None else float(case[k])  # noqa: E731
     if fn == "gross":
         kw = {"inp": D("inp"), "fail_span": mk_span(case["fail"], span_kind)}
